@@ -4,3 +4,4 @@ pub mod generate;
 pub mod print;
 pub mod harness;
 pub mod naming;
+pub mod mutate;
